@@ -70,6 +70,28 @@ def judgeConv (payload impl : String) : Verdict :=
           cls := s!"n={min conv.length 4}", model := m.toStr, spec := want.toStr }
   | _ => .bad "bad-case"
 
+/-- http.entry: path, query parameters, method and status of the entry Analyze builds -/
+def judgeEntry (payload impl : String) : Verdict :=
+  match Sx.parse payload with
+  | some (.list exs) =>
+    match exs.mapM exchangeOfSx with
+    | none => .bad "bad-case"
+    | some conv =>
+      -- a HEAD exchange with a Content-Length disturbs the framing of what follows (recorded finding)
+      let tags := if conv.any (fun (q, r) => q.method == bytesOfString "HEAD" &&
+            r.headers.any (fun h => Wire.lower h.1 == bytesOfString "content-length")) then ["http-head-response-body"] else []
+      let want := (Spec.expectedEntries conv).toStr
+      { corr := !tags.isEmpty || want == impl, implSpec := want == impl, modelSpec := true, tags, nontrivial := !conv.isEmpty,
+        cls := s!"n={min conv.length 4}", model := want, spec := want }
+  | _ => .bad "bad-case"
+
+/-- http.split: the conversation of http.conv with each half delivered in pieces - the verdict of
+    the unsplit conversation must hold unchanged -/
+def judgeSplit (payload impl : String) : Verdict :=
+  match Sx.parse payload with
+  | some (.list [conv, _, _]) => judgeConv conv.toStr impl
+  | _ => .bad "bad-case"
+
 /-! ### HTTP/2 -/
 
 def h2FrameOfSx : Sx → Option H2.Frame
